@@ -65,7 +65,7 @@ fn gen_long_string(rng: &mut Rng) -> String {
             }
             _ => {
                 if extra_non_ascii.is_none() && boundary < len {
-                    extra_non_ascii = Some((boundary - 1, *rng.pick(&['\u{e9}', '\u{4e2d}', '\u{301}', '\u{1f600}'])));
+                    extra_non_ascii = Some((boundary - 1, *rng.pick(&['\u{e9}', '\u{4e2d}', '\u{301}', '\u{1f600}', '\u{600}', '\u{6dd}', '\u{110bd}', '\u{200d}', '\u{1f1e9}', '\u{1100}'])));
                 }
             }
         }
@@ -121,6 +121,19 @@ fn gen_string(rng: &mut Rng) -> String {
             }
         } else {
             s.push_str(*rng.pick(BLOCKS));
+        }
+    }
+    // special pieces in front of / behind a long plain ASCII run (the last cluster of the special part may reach into it:
+    // a prepend character or a lone CR joins what follows, a mark or a joiner what precedes)
+    if !ascii_only && rng.chance(1, 6) {
+        let run: String = (0..rng.range(16, 70)).map(|i| b"1234567890abcdef ghij"[i % 21] as char).collect();
+        match rng.below(3) {
+            0 => s.push_str(&run),
+            1 => s.insert_str(0, &run),
+            _ => {
+                s.insert_str(0, &run);
+                s.push_str(&run);
+            }
         }
     }
     s
